@@ -190,6 +190,26 @@ fn main() {
     a.mutate(|_mca, ra| b.mutate(|mcb, rb| { let _n = *ra.p; *rb.cell.borrow_mut(mcb) = Some(rb.p); }));
 }
 ''')
+P("C12", "cross_arena_root_swap", LIFETIME, "the roots of two arenas exchanged through nested mutate_root callbacks", '''
+fn main() {
+    let mut a = mk();
+    let mut b = mk();
+    #[cfg(bad)]
+    a.mutate_root(|_mca, ra| b.mutate_root(|_mcb, rb| std::mem::swap(ra, rb)));
+    #[cfg(not(bad))]
+    a.mutate_root(|_mca, ra| b.mutate_root(|mcb, rb| { let _n = *ra.p; rb.p = Gc::new(mcb, 2); }));
+}
+''')
+P("C12", "cross_arena_root_field_swap", LIFETIME, "a root field of arena A exchanged with one of arena B", '''
+fn main() {
+    let mut a = mk();
+    let mut b = mk();
+    #[cfg(bad)]
+    a.mutate_root(|_mca, ra| b.mutate_root(|_mcb, rb| std::mem::swap(&mut ra.p, &mut rb.p)));
+    #[cfg(not(bad))]
+    a.mutate_root(|_mca, ra| b.mutate_root(|_mcb, rb| { let _n = *ra.p; let mut q = rb.p; std::mem::swap(&mut q, &mut rb.p); }));
+}
+''')
 P("C12", "cross_arena_stash", LIFETIME, "pointer of arena A stashed in the DynamicRootSet of arena B", '''
 fn main() {
     let a = mk();
